@@ -1,8 +1,9 @@
 """C16 — framed-message receivers: segmentation invariance and exact limits.
 
 Engine E3 (net).  One run picks one receiver class (LineReceiver,
-LineOnlyReceiver, NetstringReceiver, Int8/16/32StringReceiver), a small
-MAX_LENGTH (and delimiter), and either
+LineOnlyReceiver, NetstringReceiver, Int8/16/32StringReceiver, or an application
+subclass of IntNStringReceiver that defines structFormat / prefixLength itself -
+see FORMATS), a small MAX_LENGTH (and delimiter), and either
 
 * "stream" mode: a byte stream from a seeded grammar (messages of length
   MAX_LENGTH-1 / MAX_LENGTH / MAX_LENGTH+1, delimiter bytes inside lines,
@@ -14,7 +15,16 @@ MAX_LENGTH (and delimiter), and either
 * "send" mode: a second real instance sends messages with sendLine/sendString
   over a net.Link to the receiver under a tape-chosen delivery schedule.
 
-Two further families, each present in a share of the runs:
+Three further families, each present in a share of the runs:
+
+* "prefix format": IntNStringReceiver is configured the documented way - a
+  subclass sets structFormat (one unsigned 8/16/32-bit integer: little-endian,
+  big-endian, network, standard-native and native spellings, also with reserved
+  pad bytes before/after the integer) and prefixLength = calcsize(structFormat).
+  Every format has its own reference framer and its own stream grammar, both
+  built on a header layout worked out by hand from the format string (PrefixSpec;
+  cross-checked against struct.calcsize/struct.pack at import), pad bytes of the
+  header carry tape-drawn junk in stream mode.
 
 * "companion": a second, independent connection of the SAME receiver class (own
   transport, own stream / own sender, own script, own reference) is live during
@@ -37,6 +47,9 @@ ONE delivery; no message longer than the MAX_LENGTH in force is ever delivered;
 no message within it is rejected; nothing is delivered while paused; every
 message sent with the send method arrives equal.
 """
+import struct
+import sys
+
 from detsim import net
 from models import framing
 
@@ -60,10 +73,13 @@ LINEONLY_DELIM_RECONF = False
 COMPONENTS = {
     "real": ["twisted.protocols.basic.LineReceiver", "twisted.protocols.basic.LineOnlyReceiver",
              "twisted.protocols.basic.NetstringReceiver", "twisted.protocols.basic.Int8/16/32StringReceiver",
+             "twisted.protocols.basic.IntNStringReceiver (subclasses with their own structFormat/prefixLength)",
              "sendLine/sendString", "_PauseableMixin"],
     "stub": ["TCP transport, delivery segmentation, stalls and coalescing (detsim.net.SimTransport / Link / cut)"],
 }
-RULE = ("run = one receiver class with tape-chosen MAX_LENGTH (0..1000) and delimiter, fed a grammar-generated stream "
+RULE = ("run = one receiver class (1 run in 7: an IntNStringReceiver subclass with a tape-chosen structFormat out of 27 - "
+        "byte orders < > ! = @/none, widths 8/16/32 bits, some with pad bytes - framed by that format's own reference) "
+        "with tape-chosen MAX_LENGTH (0..1000) and delimiter, fed a grammar-generated stream "
         "(or messages sent by a second real instance) in tape-chosen pieces with tape-scripted pause/raw-mode/close "
         "actions inside callbacks; in 40% of the runs the script may also set MAX_LENGTH (all classes) or the delimiter "
         "(LineReceiver) from inside callback k, the reference framing everything after message k with the new values and "
@@ -79,14 +95,85 @@ ASSUMPTIONS = [
     "values whether or not it was already buffered",
     "delimiter changes are scripted for LineReceiver only (LineOnlyReceiver pre-splits a delivery; see LINEONLY_DELIM_RECONF)",
     "two connections of one class share nothing: each is compared with the reference framing of its own stream only",
+    "an IntNStringReceiver subclass chooses its prefix through structFormat / prefixLength = calcsize(structFormat) as "
+    "the class documents; the format holds exactly one unsigned integer of 8, 16 or 32 bits (any byte order, optional "
+    "pad bytes - PAD_FORMATS); signed and 64-bit formats are not used; only messages that fit the integer are sent",
     "what happens to an unfinished message at the very end of the stream is compared between whole and split delivery, "
     "but the reference accepts both 'still waiting' and 'rejected' when the unfinished message can no longer fit the limit",
 ]
 
 LINE_KINDS = ("LineReceiver", "LineOnlyReceiver")
 INT_KINDS = {"Int8StringReceiver": 1, "Int16StringReceiver": 2, "Int32StringReceiver": 4}
+CUSTOM = "IntNStringReceiver"    # an application subclass that defines structFormat / prefixLength itself
 KINDS = ["LineOnlyReceiver", "LineReceiver", "NetstringReceiver", "Int8StringReceiver", "Int16StringReceiver",
-         "Int32StringReceiver"]
+         "Int32StringReceiver", CUSTOM]
+# IntNStringReceiver documents structFormat ("format used for struct packing/unpacking. Define it in subclass") and
+# prefixLength ("Define it in subclass, using struct.calcsize(structFormat)") as THE way to make a length-prefixed
+# protocol; Int8/16/32StringReceiver are merely the three network-order instances.  A subclass with another byte order
+# is still an 8/16/32-bit length-prefixed protocol in the sense of the statement, and the unchanged tree frames it by
+# its own structFormat in both directions.  Formats: one unsigned 8/16/32-bit integer in every byte order struct knows
+# with standard sizes ("<", ">", "!", "="), the native-order spellings whose size does not depend on the platform's
+# long ("B", "H", "I", "@H", "@I"), and - PAD_FORMATS - headers with reserved pad bytes around the integer ("x").
+# Not used: signed codes (a negative prefix has no meaning the statement could judge), "Q" and native "L" (64 bits).
+PAD_FORMATS = True
+FORMATS = ["<H", "<I", ">H", "=H", "<B", "<L", ">I", "=I", "!L", ">L", "=L", ">B", "=B", "!H", "!I", "!B",
+           "H", "I", "B", "@H", "@I"]
+if PAD_FORMATS:
+    FORMATS += ["<xH", "!Hx", "<Hxx", "!xB", ">xxI", "<Ix"]
+
+
+class PrefixSpec:
+    """Where the length sits in the header of one struct format - worked out BY HAND from the format string (struct
+    module documentation: byte-order character, "x" = pad byte, B/H/I/L = unsigned 8/16/32/32 bits in standard mode),
+    so that the reference framer and the stream grammar do not go through the calls the receiver itself makes; the
+    result is cross-checked against struct.calcsize / struct.pack when the module is imported."""
+
+    ORDER = {"<": "little", ">": "big", "!": "big", "=": sys.byteorder, "@": sys.byteorder}
+    WIDTH = {"B": 1, "H": 2, "I": 4, "L": 4}
+
+    def __init__(self, fmt):
+        self.fmt = fmt
+        body = fmt
+        self.order = sys.byteorder
+        if body[:1] in self.ORDER:
+            self.order = self.ORDER[body[0]]
+            body = body[1:]
+        code = body.strip("x")
+        self.lead = len(body) - len(body.lstrip("x"))
+        self.trail = len(body) - len(body.rstrip("x"))
+        self.width = self.WIDTH[code]
+        self.size = self.lead + self.width + self.trail
+        self.top = 256 ** self.width - 1
+        self.padded = bool(self.lead or self.trail)
+        self.network = self.order == "big" and not self.padded
+
+    def decode(self, header):
+        return int.from_bytes(header[self.lead:self.lead + self.width], self.order)
+
+    def encode(self, n, pad=None):
+        """Header for length n; pad = the lead+trail reserved bytes (zeros, as pack writes them, by default)."""
+        pad = pad if pad is not None else bytes(self.lead + self.trail)
+        return pad[:self.lead] + n.to_bytes(self.width, self.order) + pad[self.lead:]
+
+    def selfcheck(self):
+        ok = struct.calcsize(self.fmt) == self.size
+        for n in (0, 1, 2, 5, 127, 128, 255, 256, 300, 0x0102, 0x01020304, self.top):
+            if n <= self.top:
+                ok = ok and struct.pack(self.fmt, n) == self.encode(n) and self.decode(self.encode(n, b"\xa5" * 8)) == n
+        if not ok:
+            raise AssertionError("C16 harness: hand-decoded layout of struct format %r disagrees with struct" % self.fmt)
+        return self
+
+
+SPECS = {k: PrefixSpec({1: "!B", 2: "!H", 4: "!I"}[n]).selfcheck() for k, n in INT_KINDS.items()}
+for _f in FORMATS:
+    SPECS["%s[%s]" % (CUSTOM, _f)] = PrefixSpec(_f).selfcheck()
+
+
+def maxlens(kind):
+    if kind in MAXLENS:
+        return MAXLENS[kind]
+    return MAXLENS["Int8StringReceiver" if SPECS[kind].width == 1 else "Int16StringReceiver"]
 DELIMS = [b"\r\n", b"\n", b"\r\n\r\n", b"ab", b"aab", b"\x00\x00\x01"]
 MAXLENS = {
     "Int8StringReceiver": [5, 0, 1, 2, 16, 64, 254, 255],
@@ -193,10 +280,14 @@ def make_class(kind, maxlen, delim):
             def stringReceived(self, s):
                 self.h.message(self, "string", s)
     else:
-        base = getattr(basic, kind)
+        base = getattr(basic, kind) if kind in INT_KINDS else basic.IntNStringReceiver
 
         class R(base):
             MAX_LENGTH = maxlen
+            if kind not in INT_KINDS:
+                # the application defines its own prefix the way the class docstring tells it to
+                structFormat = SPECS[kind].fmt
+                prefixLength = struct.calcsize(structFormat)
 
             def stringReceived(self, s):
                 self.h.message(self, "string", s)
@@ -218,7 +309,8 @@ def reference(kind, stream, maxlen, delim, script, state_out=None):
         return framing.frame_lines(stream, delim, maxlen, script, state_out)
     if kind == "NetstringReceiver":
         return framing.frame_netstrings(stream, maxlen, script, state_out)
-    return framing.frame_intn(stream, INT_KINDS[kind], maxlen, script, state_out)
+    spec = SPECS[kind]
+    return framing.frame_intn(stream, spec.size, maxlen, script, state_out, decode=spec.decode)
 
 
 def has_reconf(script):
@@ -282,8 +374,14 @@ def gen_line_stream(sim, delim0, cur):
     return bytes(out), bounds
 
 
-def gen_int_stream(sim, plen, cur):
-    top = 256 ** plen - 1
+def gen_int_stream(sim, spec, cur):
+    top = spec.top
+    npad = spec.lead + spec.trail
+
+    def header(n):
+        # reserved pad bytes of the header carry anything on the wire
+        return spec.encode(n, sim.draw_bytes(npad, b"\x00\xffx\x01") if npad else None)
+
     out = bytearray()
     bounds = []
     for _ in range(sim.draw_int(1, 6, "nitems")):
@@ -291,15 +389,15 @@ def gen_int_stream(sim, plen, cur):
         if sim.draw_bool(0.12, "overlong"):
             n = sim.draw_choice([maxlen + 1, top, min(top, maxlen + 1 + sim.draw_int(0, 300, "over"))], "overlen")
             n = min(n, top)
-            out += n.to_bytes(plen, "big") + sim.draw_bytes(sim.draw_int(0, 6, "junk"), b"xy\x00")
+            out += header(n) + sim.draw_bytes(sim.draw_int(0, 6, "junk"), b"xy\x00")
         else:
             n = min(gen_len(sim, maxlen, top), top)
-            out += n.to_bytes(plen, "big") + payload(sim, n, b"xy\x00\x01")
+            out += header(n) + payload(sim, n, b"xy\x00\x01")
         bounds.append(len(out))
     if sim.draw_bool(0.3, "tail"):
         maxlen = cur(out)[0]
         n = min(gen_len(sim, maxlen, top), top)
-        frame = n.to_bytes(plen, "big") + payload(sim, n, b"xy\x00")
+        frame = header(n) + payload(sim, n, b"xy\x00")
         out += frame[:sim.draw_int(0, len(frame), "tailcut")]
     return bytes(out), bounds
 
@@ -363,7 +461,7 @@ def gen_script(sim, kind, mode, reconf=False):
         if a[0] == "raw":
             a = ("raw", sim.draw_int(1, 9, "rawlen"))
         elif a[0] == "maxlen":
-            a = ("maxlen", sim.draw_choice(MAXLENS[kind], "new-maxlen"))
+            a = ("maxlen", sim.draw_choice(maxlens(kind), "new-maxlen"))
         elif a[0] == "delim":
             a = ("delim", sim.draw_choice(DELIMS, "new-delimiter"))
         if a[0] != "none":
@@ -578,7 +676,7 @@ def gen_stream(sim, kind, maxlen, delim, script, avoid):
     elif kind == "NetstringReceiver":
         stream, bounds = gen_net_stream(sim, cur)
     else:
-        stream, bounds = gen_int_stream(sim, INT_KINDS[kind], cur)
+        stream, bounds = gen_int_stream(sim, SPECS[kind], cur)
     if kind in LINE_KINDS:
         # the stream may END inside the delimiter that follows a line of (nearly) MAX_LENGTH bytes: finish that
         # delimiter so that the reference has a complete line to point at (or cut the partial delimiter off when
@@ -599,8 +697,18 @@ def gen_stream(sim, kind, maxlen, delim, script, avoid):
 
 def run(sim):
     kind = sim.draw_choice(KINDS, "kind")
+    if kind == CUSTOM:
+        kind = "%s[%s]" % (CUSTOM, sim.draw_choice(FORMATS, "struct-format"))
+        spec = SPECS[kind]
+        sim.probe("custom_prefix_format")
+        if spec.padded:
+            sim.probe("custom_prefix_with_pad_bytes")
+        elif not spec.network:
+            sim.probe("custom_prefix_not_network_order")
+        else:
+            sim.probe("custom_prefix_network_order")
     mode = sim.draw_weighted([("stream", 4), ("send", 1)], "mode")
-    maxlen = sim.draw_choice(MAXLENS[kind], "maxlen")
+    maxlen = sim.draw_choice(maxlens(kind), "maxlen")
     delim = sim.draw_choice(DELIMS, "delimiter") if kind in LINE_KINDS else b""
     # Known finding (LineOnlyReceiver counts a partially received delimiter
     # against MAX_LENGTH): most LineOnlyReceiver runs steer clear of its
@@ -682,7 +790,7 @@ class Lane:
 
 def run_send(sim, kind, cls, maxlen, delim, script, avoid=False, reconf=False, companion=False):
     """A second real instance sends messages with the send method over a Link."""
-    top = 256 ** INT_KINDS[kind] - 1 if kind in INT_KINDS else None
+    top = SPECS[kind].top if kind in SPECS else None
     lanes = [Lane(sim, kind, cls, maxlen, delim, script, "link", sim.draw_int(1, 6, "nmsgs"))]
     interleave = sim.draw_bool(0.5, "interleave")
     if companion:
@@ -809,6 +917,9 @@ MUTANTS = [
     "round 4, companion family - NetstringReceiver: '_payload = BytesIO()' as class attribute, no longer created in makeConnection (seed C16-r4a) : first SURVIVED (one live connection per run; the sequential twin instance is harmless because the buffer is rewound per netstring), caught after adding the interleaved companion connection (reference-mismatch:NetstringReceiver:obs=string,ref=string, too-long-delivered:NetstringReceiver, sent-equals-received:NetstringReceiver)",
     "LineReceiver: class attribute '_buffer = bytearray()' (first += of every connection mutates the shared object) : caught (reference-mismatch:LineReceiver:obs=line,ref=exceeded / ref=nothing)",
     "LineOnlyReceiver: residue kept in a class-level list '_chunks' : caught (within-limit-rejected:LineOnlyReceiver:other, reference-mismatch:LineOnlyReceiver:*; companion and twin runs)",
+    "round 5, prefix-format family - IntNStringReceiver.dataReceived: prefix decoded with int.from_bytes(..., 'big') instead of unpack(structFormat) (seed C16-r5b) : first SURVIVED (only the three network-order stock classes were run), caught after adding IntNStringReceiver subclasses with their own structFormat, each framed by its own reference (within-limit-rejected:IntNStringReceiver[=H]:other, within-limit-rejected:IntNStringReceiver[@I]:other, reference-mismatch:IntNStringReceiver[H]:obs=exceeded,ref=exceeded; < 1000 runs)",
+    "IntNStringReceiver.dataReceived: prefix decoded with int.from_bytes(..., 'little' if fmt[0] == '<' else 'big') : caught (within-limit-rejected:IntNStringReceiver[=H] / [@H] / [@I]:other)",
+    "IntNStringReceiver.sendString: prefix built with len(string).to_bytes(self.prefixLength, 'big') instead of pack(structFormat) : caught (within-limit-rejected:IntNStringReceiver[=L] / [<Hxx] / [@I]:other, send mode)",
     "observation (unchanged tree, not checked: LINEONLY_DELIM_RECONF = False): LineOnlyReceiver splits a delivery on the delimiter before calling lineReceived, so a delimiter set inside lineReceived is applied to the rest of the stream only from the next delivery on (b'EOL LF\\r\\none\\ntwo\\n' at once -> 1 line, bytewise -> 3 lines); with the flag on the check reports reference-mismatch:LineOnlyReceiver:obs=line,ref=nothing within ~1000 runs",
     "candidate FIX LineOnlyReceiver: 'if len(self._buffer) > self.MAX_LENGTH' -> '>= self.MAX_LENGTH + len(self.delimiter)' : check passes (exit 0), 48000 runs",
 ]
